@@ -21,6 +21,7 @@ TEntries == { F(n) : n \in { <<"a">>, <<"b">>, <<"..", "a">>, <<"a", "b">> } } \
 (* names that resolve to the output directory itself, and names one suffix away from another entry's (a temporary
    name an implementation may derive, "a.part") *)
 ZEntries == { F(<<"a">>), F(<<"b">>), L(<<"..">>, T(FALSE, <<"..", "sdir">>)), L(<<".">>, T(FALSE, <<"..", "sdir">>)),
+              L(<<"..">>, T(FALSE, <<"sdir">>)),       \* seen from the output directory's own place this names the sentinel directory
               L(<<"a.part">>, T(FALSE, <<"..", "sent">>)), L(<<"a.part">>, T(TRUE, <<"w", "new">>)), L(<<"a.tmp">>, T(FALSE, <<"..", "sent">>)) }
 ZDirNames == { <<"a">> }
 NoPre  == [p \in {} |-> [t |-> "dir"]]
